@@ -415,6 +415,7 @@ def _read_host(r: Reader, host: str):
             r.require_eol()
             return ['str', v], r.pos
         if host == 'fname':
+            pos0 = r.pos
             if r.kf7:
                 # the arguments start directly after the instruction name
                 while r.pos < len(r.src) and r.src[r.pos] in ALL_WS and r.src[r.pos] != '\n':
@@ -423,7 +424,8 @@ def _read_host(r: Reader, host: str):
             t = r.require_token()
             if t.vsrc.lstrip(ALL_WS).startswith('-'):
                 raise Unsupported('option-like file name')  # PATH: [RELATIVITY-OPTION] FILE-NAME
-            for m in REF_RE.finditer(t.string):
+            for m in REF_RE.finditer(r.src[pos0:line_end(r.src, pos0)]):
+                # (anywhere on the line: which token is the file name depends on the reading)
                 if r.symbols.get(m.group(1), ('string', ''))[0] != 'string':
                     raise Unsupported('list / path symbol in a file name')
             v = r.string_()
